@@ -74,3 +74,12 @@ pub use swimos_introspection::IntrospectionConfig;
 use swimos_utilities::byte_channel::{ByteReader, ByteWriter};
 
 type Io = (ByteWriter, ByteReader);
+
+/// Add-only re-exports for the external verification harness (feature `verif_hooks`, off by default).
+#[cfg(feature = "verif_hooks")]
+pub mod verif {
+    pub use crate::in_memory_store::{
+        InMemRangeConsumer, InMemoryNodePersistence, InMemoryPlanePersistence,
+    };
+    pub use crate::server::verif::InMemoryPersistence;
+}
